@@ -111,3 +111,20 @@ m("c08-lone-warning-lost", ["C08"], Y,
   "                        if len(w) > 1:\n                            if \"\" in w:\n                                w.remove(\"\")\n                            warn += [\", \".join(w)]\n                        else:\n                            warn += [\"\"]")
 m("c08-rail-in-of-mux-first-input", ["C08", "C05"], Y,
   "                        pn = self._g[p[pinp]]._params[\"name\"]", "                        pn = self._g[p[0]]._params[\"name\"]")
+
+# ---- C09 -------------------------------------------------------------------------------------
+m("c09-ge-instead-of-gt", ["C09"], C,
+  "            if abs(checks[key]) > abs(lim[1]) or abs(checks[key]) < abs(lim[0]):",
+  "            if abs(checks[key]) >= abs(lim[1]) or abs(checks[key]) < abs(lim[0]):")
+m("c09-signed-comparison", ["C09"], C,
+  "            if abs(checks[key]) > abs(lim[1]) or abs(checks[key]) < abs(lim[0]):",
+  "            if checks[key] > abs(lim[1]) or abs(checks[key]) < abs(lim[0]):")
+m("c09-tp-by-magnitude", ["C09"], C,
+  "            if checks[key] > lim[1] or checks[key] < lim[0]:", "            if abs(checks[key]) > abs(lim[1]) or abs(checks[key]) < abs(lim[0]):")
+m("c09-converter-gets-vd", ["C09"], C,
+  "        return [\"vi\", \"vo\", \"ii\", \"io\", \"pi\", \"po\", \"pl\", \"tr\", \"tp\"]", "        return [\"vi\", \"vo\", \"vd\", \"ii\", \"io\", \"pi\", \"po\", \"pl\", \"tr\", \"tp\"]")
+m("c09-iload-loses-pi", ["C09"], C, "        return [\"vi\", \"pi\", \"tr\", \"tp\"]", "        return [\"vi\", \"tr\", \"tp\"]")
+m("c09-warn-in-inactive-phase", ["C09"], C,
+  "            if phase_conf:\n                if phase not in phase_conf:\n                    return \"\"", "            if phase_conf:\n                if phase not in phase_conf and False:\n                    return \"\"")
+m("c09-rollup-any-row", ["C09"], Y, "                if w != \"\":\n                    dwarns[dname] = 1", "                if w != \"\":\n                    dwarns[list(dwarns)[0]] = 1")
+m("c09-po-uses-pi", ["C09"], C, "            \"po\": pi - pl,", "            \"po\": pi,")
